@@ -147,7 +147,7 @@ TraceNext ==
             /\ UNCHANGED <<asked, handled, hb, closing, closeRet, cancelled>>
             /\ PrintT(ToJson(<<"VIOL", l, ev.beh,
                    {IF ev.info = "in-handler" THEN "FailureIsError/deadline-in-handler" ELSE "FailureIsError/deadline"}>>))
-       [] ev.ev \in {"Slow", "Stall", "CloseSlow", "HarnessStuck", "HarnessPanic"} ->
+       [] ev.ev \in {"Slow", "Stall", "CloseSlow", "ServeNoop", "HarnessStuck", "HarnessPanic"} ->
             /\ UNCHANGED <<asked, handled, hb, closing, closeRet, cancelled>>
             /\ PrintT(ToJson(<<"DRIFT", l, ev.beh, {ev.ev}>>))
        [] OTHER ->
